@@ -45,6 +45,14 @@ impl Reader {
     /// Caller must ensure `offset + len <= self.len()`.
     #[inline(always)]
     pub fn unchecked_read(&self, offset: usize, len: usize) -> &[u8] {
+        #[cfg(anydb_verif)]
+        crate::verif::emit(crate::verif::Event::Access {
+            kind: "reader:unchecked_read",
+            region_start: self.start,
+            region_len: self._region.meta().len(),
+            off: offset,
+            len,
+        });
         let start = self.start() + offset;
         let end = start + len;
         &self.mmap[start..end]
@@ -64,6 +72,17 @@ impl Reader {
     #[inline(always)]
     pub fn len(&self) -> usize {
         self.len
+    }
+
+    /// Absolute start of the snapshot and the owning region (verification only).
+    #[cfg(anydb_verif)]
+    pub fn verif_start(&self) -> usize {
+        self.start
+    }
+
+    #[cfg(anydb_verif)]
+    pub fn verif_region(&self) -> &Region {
+        &self._region
     }
 
     #[inline(always)]
